@@ -55,6 +55,8 @@ func Catalogue() map[string]Script {
 			res(2, 3), start(2), wok(2), rgo, reply(0, 100), reply(2, 102))
 		mk("c02:reader-parked-then-delivers", 4, 7, res(0, 11), start(0), wok(0), hold(0, 100), rgo)
 		// the last bytes of the reply come back from Read together with EOF (TLS close_notify behind the data)
+		mk("c02:reply-in-two-pieces", 4, 7, res(0, 11), res(1, 12), start(0), start(1), wok(0), wok(1),
+			Action{K: AFeedSplitReply, C: 0, Tag: 100}, Action{K: AFeedSplitReply, C: 1, Tag: 101})
 		mk("c02:reply-bytes-with-eof", 4, 7, res(0, 11), start(0), wok(0), Action{K: AFeedEofReply, C: 0, Tag: 100})
 		mk("c02:reply-bytes-with-eof-before-wait", 4, 7, res(0, 11), res(1, 12), start(0), start(1), whold(0), wok(1),
 			Action{K: AFeedEofReply, C: 0, Tag: 100}, rel(0))
@@ -135,7 +137,7 @@ func RandomNext(r *hx.RNG, focus string, maxSteps int) (Script, func(v *View) *A
 			if w == nil {
 				w = []int{10, 2, 12, 12, 4, 16, 3, 3, 2, 5, 1, 1}
 			}
-			w = append(append([]int{}, w...), 2, 3, 2, 1) // runt datagram (UDP only), parked reader: hold / go, reply+EOF (TCP only)
+			w = append(append([]int{}, w...), 2, 3, 2, 1, 3) // runt datagram (UDP only), parked reader: hold / go, reply+EOF, reply in two pieces (TCP only)
 			tot := 0
 			for _, x := range w {
 				tot += x
@@ -189,6 +191,9 @@ func RandomNext(r *hx.RNG, focus string, maxSteps int) (Script, func(v *View) *A
 			case 15:
 				tag++
 				a = Action{K: AFeedEofReply, C: c, Tag: tag}
+			case 16:
+				tag++
+				a = Action{K: AFeedSplitReply, C: c, Tag: tag}
 			}
 			// reserve picks the next unused call id; the others pick among existing ones
 			if a.K != AReserve && a.K != AFeedStray && a.K != AFeedErr && a.K != AClose && a.K != ASetQid && a.K != AExpire && a.K != ARunt && a.K != AReaderGo {
